@@ -65,6 +65,32 @@ func c02Case(w *rt.W, n uint64, set int) {
 		c02Fail(w, "format", n, set, "DefaultFormatter", string(out), want)
 		return
 	}
+	if set&63 != 0 && hasFourOrNine(n) {
+		// caller buffers whose spare capacity lies between the short-form and the long-form length
+		short := len(ref.RomanFormat(n, ref.RomanFlags{}))
+		for _, k := range []int{short, len(want) - 1, len(want)} {
+			if k < 0 {
+				continue
+			}
+			o, err := roman.DefaultFormatter(append(make([]byte, 0, k+1), '#'), roman.Number(n), f)
+			w.Eval(1)
+			if err != nil || string(o) != "#"+want {
+				c02Fail(w, "format-spare-capacity", n, set, fmt.Sprintf("DefaultFormatter(\"#\" with spare %d)", k), string(o), "#"+want)
+			}
+		}
+	}
+	if (n+uint64(set))%16 == 0 && len(want) > 0 {
+		// the numeral sits inside a larger buffer (two numerals back to back): parsing one must leave the other alone
+		rec := append(append(make([]byte, 0, 2*len(want)+8), want...), want...)
+		g, err := roman.DefaultParser(rec[:len(want)], 0)
+		w.Eval(1)
+		if (roman.MaxInputLength == 0 || len(want) <= roman.MaxInputLength) && (err != nil || uint64(g) != n) {
+			c02Fail(w, "parse-subslice", n, set, "DefaultParser[[]byte] on the first of two numerals in one buffer", fmt.Sprint(uint64(g), " err=", err), fmt.Sprint(n))
+		}
+		if string(rec[len(want):]) != want {
+			c02Fail(w, "parser-wrote-behind-input", n, set, "DefaultParser[[]byte] on the first of two numerals in one buffer", string(rec[len(want):]), want)
+		}
+	}
 	lower := rf.Lower
 	tooLong := roman.MaxInputLength != 0 && len(want) > roman.MaxInputLength
 	judge := func(path string, got roman.Number, err error, isValid bool) {
